@@ -7,8 +7,9 @@
     every label sequence of the adversary (scheduler + peers + handlers) from the
     empty transport; [step false] is the repaired code (design.d/C10.md). *)
 From RsM Require Import Lib.MachInt Model.Dedup Model.Mrp Model.Exchange Model.ExchangeSpec
+  Model.ExchangeTx
   Proofs.ExchangeFacts Proofs.ExchangeSys Proofs.ExchangeTheorems Proofs.ExchangeLifecycle
-  Proofs.ExchangeSpecFacts.
+  Proofs.ExchangeSpecFacts Proofs.ExchangeTx.
 Open Scope N_scope.
 
 (** ** routing *)
@@ -83,6 +84,7 @@ Theorem C10_unknown_dropped : forall s m se,
   rx s = RxEmpty -> find_key (sessions s) (m_key m) = Some se ->
   find_exch (s_exchs se) m = None ->
   (m_init m = false \/ is_new_exchange (m_op m) = false) ->
+  is_close (m_op m) = false ->
   exists s' ev, step false s (LRx m) = Some (s', ev) /\
     rx s' = RxEmpty /\ handles s' = handles s /\
     (ev = [] \/ ev = [EvDupAck (m_key m) (m_ctr m)]) /\
@@ -90,6 +92,19 @@ Theorem C10_unknown_dropped : forall s m se,
       exists se0, In se0 (sessions s) /\ s_id se' = s_id se0 /\ s_exchs se' = s_exchs se0.
 Proof. exact unknown_dropped. Qed.
 Print Assumptions C10_unknown_dropped.
+
+(** the one status report that is not dropped: a peer's CloseSession removes the
+    session whatever exchange it arrives on (it comes on an exchange of its own) *)
+Theorem C10_peer_close_honoured : forall s m se,
+  reachable s -> rx s = RxEmpty -> find_key (sessions s) (m_key m) = Some se ->
+  snd (post_recv (s_win se) (m_ctr m) (s_enc se) false) = true ->
+  m_op m = OpScClose ->
+  (find_exch (s_exchs se) m = None \/ m_ack m = None) ->
+  exists s', step false s (LRx m) = Some (s', [EvPeerClosed (s_id se)]) /\
+    rx s' = RxEmpty /\ handles s' = handles s /\
+    (forall x, In x (sessions s') -> In x (sessions s) /\ s_id x <> s_id se).
+Proof. intros s m se R. apply peer_close_honoured. apply reachable_inv. exact R. Qed.
+Print Assumptions C10_peer_close_honoured.
 
 (** ** the receive path never wedges (safety + enabledness) *)
 
@@ -135,9 +150,11 @@ Theorem C10_closed_cleanly : forall s,
     ( (retrans_pending e = true /\ ev = [EvCloseSession sid i] /\
        sessions s' = remove_sid (sessions s) sid)
       \/
-      (retrans_pending e = false /\ sessions s' = set_slot (sessions s) sid i None /\
-       ( (ack_pending e = true /\ exists c, ev = [EvStandaloneAck sid i c])
-         \/ (ack_pending e = false /\ ev = [])))).
+      (retrans_pending e = false /\ sessions s' = group_gc (set_slot (sessions s) sid i None) sid /\
+       ( (is_group_sid (sessions s) sid = true /\ ev = [])
+         \/ (is_group_sid (sessions s) sid = false /\ ack_pending e = true /\
+             exists c, ev = [EvStandaloneAck sid i c])
+         \/ (is_group_sid (sessions s) sid = false /\ ack_pending e = false /\ ev = [])))).
 Proof. exact closed_cleanly. Qed.
 Print Assumptions C10_closed_cleanly.
 
@@ -150,6 +167,52 @@ Proof.
   intros s l s' ev se se' i id r R. apply dropped_is_absorbing. apply reachable_inv. exact R.
 Qed.
 Print Assumptions C10_dropped_is_absorbing.
+
+(** ** the TX buffer (Model/ExchangeTx.v: the same transport with its single TX buffer) *)
+
+(** whenever the TX buffer is not empty, either it holds a finished packet and
+    process_tx is enabled and empties it, or it is locked by the TxMessage of a
+    live Exchange object which can complete, abandon, or be dropped - each
+    releases it *)
+Theorem C10_tx_no_wedge : forall s, reachablex s -> tx_discharger s.
+Proof. exact tx_no_wedge. Qed.
+Print Assumptions C10_tx_no_wedge.
+
+(** a packet queued by one exchange leaves the buffer only through process_tx:
+    no other exchange (dangling or not) can take or clear it *)
+Theorem C10_tx_queued_only_flushed : forall s l s' ev v,
+  stepx false s l = Some (s', ev) -> tx s = TxQueued v ->
+  tx s' = TxQueued v \/ (l = XFlush /\ tx s' = TxEmpty).
+Proof. exact tx_queued_only_flushed. Qed.
+Print Assumptions C10_tx_queued_only_flushed.
+
+(** the receive-side theorems hold of the core of every state of the extended system *)
+Theorem C10_no_wedge_with_tx : forall s m,
+  reachablex s -> rx (core s) = RxHolding m -> discharger (core s) m.
+Proof. intros s m R. apply no_wedge_inv. apply core_inv. exact R. Qed.
+Print Assumptions C10_no_wedge_with_tx.
+
+Theorem C10_routing_sound_with_tx : forall s l c' ev,
+  reachablex s -> step false (core s) l = Some (c', ev) ->
+  (forall e, In e ev -> is_swallow e = false) /\
+  forall sid idx m, In (EvDeliver sid idx m) ev ->
+    l = LRecv sid idx /\ rx (core s) = RxHolding m /\ rx c' = RxTaken m sid idx /\
+    In (sid, idx) (handles (core s)) /\
+    exists se e, In se (sessions (core s)) /\ s_id se = sid /\ s_key se = m_key m /\
+      nth_error (s_exchs se) idx = Some (Some e) /\
+      e_id e = m_exid m /\ m_init m = is_responder (e_role e) /\ is_owned (e_role e) = true.
+Proof. intros s l c' ev R. apply routing_sound_inv. apply core_inv. exact R. Qed.
+Print Assumptions C10_routing_sound_with_tx.
+
+(** the second repaired finding of the TX side: with [init_send] as it was, a
+    reachable state exists where an Exchange whose session is gone clears the
+    packet another exchange has queued *)
+Theorem C10_unrepaired_init_send_swallows :
+  let s := runx true (sysx_init 0) wx_trace in
+  tx s = TxQueued (Some 1) /\
+  exists s', stepx true s (XInitSend 0 0) = Some (s', [XTxSwallow 0 0 (Some 1)]) /\ tx s' = TxEmpty.
+Proof. exact unrepaired_init_send_swallows. Qed.
+Print Assumptions C10_unrepaired_init_send_swallows.
 
 (** ** the executable clauses used as monitor *)
 
@@ -196,20 +259,43 @@ Qed.
     then acknowledges once and frees the slot *)
 Example C10_ex_closer_acks :
   let s := run false (sys_init 0)
-             [LAddSession 1 true; LRx w_m1; LAccept; LRecv 0 0; LRxDone 0 0; LDropExch 0 0] in
+             [LAddSession 1 true false; LRx w_m1; LAccept; LRecv 0 0; LRxDone 0 0; LDropExch 0 0] in
   exists s', step false s LCloseDropped = Some (s', [EvStandaloneAck 0 0 1]) /\
              pick_dropped (sessions s') = None.
 Proof. vm_compute. eexists. split; reflexivity. Qed.
 
 (** nobody accepts: after a Tick of the accept deadline the sweeper empties the slot *)
 Example C10_ex_accept_timeout :
-  let s := run false (sys_init 0) [LAddSession 1 true; LRx w_m1; LTick 1000] in
+  let s := run false (sys_init 0) [LAddSession 1 true false; LRx w_m1; LTick 1000] in
   exists s', step false s LSweepAccept = Some (s', [EvAcceptTimeout 0 0 w_m1]) /\ rx s' = RxEmpty.
 Proof. vm_compute. eexists. split; reflexivity. Qed.
 
 (** an answer to an unknown exchange is dropped without a trace *)
 Example C10_ex_unknown :
-  let s := run false (sys_init 0) [LAddSession 1 true] in
-  step false s (LRx (mkMsg 1 true 5 77 false OpOrdinary true None)) =
+  let s := run false (sys_init 0) [LAddSession 1 true false] in
+  step false s (LRx (mkMsg 1 true false 5 77 false OpOrdinary true None)) =
   Some (mkSys (upd_sid (sessions s) 0 (fun se => set_win se (mkRx true 5 0))) RxEmpty [] 0 1, []).
 Proof. vm_compute. reflexivity. Qed.
+
+(** a group data message with the R flag set opens an exchange on a fresh ephemeral
+    group session without leaving an acknowledgement behind; nobody accepts it, the
+    accept timeout drops it, the closer frees it silently and the session goes with it *)
+Example C10_ex_group_unaccepted :
+  let m := mkMsg 9 true true 1 30 true OpOrdinary true None in
+  let s := run false (sys_init 0) [LRx m; LTick 1000; LSweepAccept] in
+  (exists se, sessions s = [se] /\ s_group se = true) /\
+  exists s', step false s LCloseDropped = Some (s', []) /\ sessions s' = [].
+Proof. vm_compute. split; [eexists; split; reflexivity|]. eexists. split; reflexivity. Qed.
+
+(** a handler receives the group message and drops its exchange: session gone at once *)
+Example C10_ex_group_dropped :
+  let m := mkMsg 9 true true 1 30 true OpOrdinary false None in
+  sessions (run false (sys_init 0) [LRx m; LAccept; LRecv 0 0; LRxDone 0 0; LDropExch 0 0]) = [].
+Proof. vm_compute. reflexivity. Qed.
+
+(** a peer's CloseSession on an exchange id nobody knows removes the session *)
+Example C10_ex_peer_close :
+  let s := run false (sys_init 0) [LAddSession 1 true false] in
+  exists s', step false s (LRx (mkMsg 1 true false 5 999 true OpScClose false None)) =
+             Some (s', [EvPeerClosed 0]) /\ sessions s' = [].
+Proof. vm_compute. eexists. split; reflexivity. Qed.
